@@ -686,6 +686,46 @@ func (sm *SealManager) NamespacesMissingKeys() []string {
 	return namespaces
 }
 
+// performKeyUpgrades is the counterpart of Core.performKeyUpgrades for the
+// barriers of sealable namespaces. A standby unseals these once, with the root
+// key handed over by the active node; before this node becomes active itself,
+// they have to catch up with the key rotations done by the active node since.
+func (sm *SealManager) performKeyUpgrades(ctx context.Context) error {
+	sm.lock.RLock()
+	defer sm.lock.RUnlock()
+
+	var errs error
+	sm.barrierByNamespacePath.Walk(func(nsPath string, b any) bool {
+		if b == nil {
+			return false
+		}
+
+		nsBarrier := b.(barrier.SecurityBarrier)
+		if nsBarrier.Sealed() || nsBarrier.Namespace().UUID == namespace.RootNamespaceUUID {
+			// Skip sealed namespaces; root is handled by the caller
+			return false
+		}
+
+		if err := sm.core.checkKeyringUpgrade(ctx, nsBarrier); err != nil {
+			errs = errors.Join(errs, fmt.Errorf("error checking for key upgrades in namespace %q: %w", nsPath, err))
+			return false
+		}
+
+		if err := nsBarrier.ReloadRootKey(ctx); err != nil {
+			errs = errors.Join(errs, fmt.Errorf("error reloading root key of namespace %q: %w", nsPath, err))
+			return false
+		}
+
+		if err := nsBarrier.ReloadKeyring(ctx); err != nil {
+			errs = errors.Join(errs, fmt.Errorf("error reloading keyring of namespace %q: %w", nsPath, err))
+		}
+
+		return false
+	})
+
+	return errs
+}
+
 // GetRootKey yields the underlying root key of the barrier for the given
 // namespace.
 func (sm *SealManager) GetRootKey(ctx context.Context, ns *namespace.Namespace) ([]byte, error) {
